@@ -158,7 +158,11 @@ input, or that was discharged in `baseline/<id>.json` and now fails; `no-failing
 replayed); exit 2 `UNDECIDED`: tool limit, solver `unknown` after the retry, or a structural obligation that is new; exit 3
 `CHECKER-DEFECT`: fewer obligations than `expect_min_obligations`, a vacuity guard (`mustfail`) that verifies, a native
 cross-check that contradicts a *proved* contract, or a harness crash. `unknown`, timeouts and tracebacks are never mapped to a
-violation. `known_findings.json` is read-only at run time; an entry matches by exact obligation name (`obligations` list) or an
+violation. Two refinements: a run-time-error obligation (`.../rte/no-overflow-i16#k`, division by zero, conversion range) that has a counter-model is a
+regression whatever its number k (every such obligation was discharged on the pinned tree, and the numbering follows the operations of the
+code); and a unit whose contract can no longer be read against the code (a local it names is gone) is as unproved as one beyond a tool limit,
+so the native cross-check of its contract on the real code still decides (`<unit>/native-contract-check`).
+`known_findings.json` is read-only at run time; an entry matches by exact obligation name (`obligations` list) or an
 `fnmatch` pattern and suppresses nothing else of the property.
 
 ### 12.5 False alarms met while building, and what was done
@@ -234,7 +238,8 @@ was traced to something the check did not cover (literal-argument resolution in 
 program shapes missing from a corpus, an engine gap) and the check was extended - the table shows the state after that.
 Later rounds (k = 5..10, and 11, 12 where present) were handled the same way; before each matrix run the author notes of the new seeds were
 read and the checks extended *pre-emptively* for the classes of change they describe, so the first-pass figures are not blind:
-round 3: 31 of 40 at first pass, round 4: 15 of 40 (no pre-emptive edits), round 5: 32 of 40. The recurring causes of a miss were (1) a
+round 3: 31 of 40 at first pass, round 4: 15 of 40 (no pre-emptive edits), round 5: 32 of 40, round 6: 19 of 40 and round 7: 20 of 40
+(both without pre-emptive edits; the authors were told every idea already taken, so each round is harder than the one before). The recurring causes of a miss were (1) a
 program *shape* absent from a bounded corpus (re-declared devices, two displays of one class, re-specialised helper variants, a name re-used
 in another role by a later transpilation, arguments written with parentheses or calls), (2) parser-level argument resolution that the
 fragment contracts bypass by construction, (3) state outside the modelled frame. Each produced a new *family* of obligations (enumerated
